@@ -1,4 +1,5 @@
 import XyzProofs.Props.C17Src
+import XyzProofs.Props.C17
 /-!
 # The translated generator `gen_xy` run on the model's dataset operations is the model's `mkSeries`
 
@@ -102,5 +103,112 @@ theorem genxy_coord_refines (dimOk : String → Bool) (vw : View) (call : Call) 
     (simp only [Gen.plGenXY, Gen.Default.plGenXY, hk, modeOf]
      run_gen
      simp [Arr.flat, carriedNames, cColsOf, hk, hc, hy, hx])
+
+/-- no z coordinate, one variable: the whole dataset is the slice -/
+theorem genxy_single_refines (dimOk : String → Bool) (vw : View) (call : Call) (zCoo : Option String) (k : Nat)
+    (hk : call.kind = .lineplot ∨ call.kind = .scatter) :
+    Gen.plGenXY (shiftOps (srcOps dimOk) k) vw [.none] false call.x1 call.y1 zCoo call.c call.yErr call.xErr
+        (modeOf call.kind) =
+      .ok ([seriesData (mkSeries vw call call.x1 call.y1 true none)], cColsOf vw call) := by
+  rw [carried_body _ _ _ hk]
+  rcases hk with hk | hk <;> cases hc : call.c <;> cases hy : call.yErr <;> cases hx : call.xErr <;>
+    (simp only [Gen.plGenXY, Gen.Default.plGenXY, hk, modeOf]
+     run_gen
+     simp [Arr.flat, carriedNames, cColsOf, hk, hc, hy, hx])
+
+/-- several variables: series `n` is x against the variable `n` of the dataset, nothing carried -/
+theorem genxy_var_refines (dimOk : String → Bool) (vw : View) (call : Call) (n yCoo mode : String) (zCoo : Option String)
+    (k : Nat) :
+    Gen.plGenXY (shiftOps (srcOps dimOk) k) vw [.name n] true call.x1 yCoo zCoo none none none mode =
+      .ok ([seriesData (mkSeries vw call call.x1 n false (some n))], []) := by
+  simp only [Gen.plGenXY, Gen.Default.plGenXY]
+  run_gen
+  simp [Arr.flat, seriesData, mkSeries, notNull_mkSeries, ← mask_eq, zipWith_map]
+
+/-- several variables together with errors / a colour variable: `ValueError` (translated source, any operations) -/
+theorem genxy_var_errors {D A F M C Z : Type} (o : PlotOps D A F M C Z) (ds : D) (z : PZ Z) (zs : List (PZ Z))
+    (xCoo yCoo mode : String) (zCoo cCoo yErr xErr : Option String) (h : (yErr.isSome || xErr.isSome || cCoo.isSome) = true) :
+    Gen.plGenXY o ds (z :: zs) true xCoo yCoo zCoo cCoo yErr xErr mode = .error .valueError := by
+  have h' : (!yErr.isNone || !xErr.isNone || !cCoo.isNone) = true := by
+    cases yErr <;> cases xErr <;> cases cCoo <;> simp_all
+  simp only [Gen.plGenXY, Gen.Default.plGenXY, plLoop, plEnumerate, length_cons, range_succ_eq_map, zip_cons_cons, map_cons,
+    foldlM_cons, bind, Except.bind, if_true, h', throw, throwThe, MonadExceptOf.throw]
+
+theorem applyMask_map_self (p : Cell → Bool) : ∀ l : List Cell, applyMask (l.map p) l = l.filter p
+  | [] => by simp [applyMask]
+  | a :: l => by
+    rw [map_cons, applyMask_cons, applyMask_map_self p l]
+    cases h : p a <;> simp [h]
+
+/-- **histogram**: one iteration of the translated `gen_x` yields the finite values of the slice (`.loc` by the z value),
+of the variable, or of the whole dataset: the `x` of the model's `prepareHistogram` -/
+theorem genx_refines (dimOk : String → Bool) (vw : View) (x1 yCoo mode : String) (c ye xe : Option String) :
+    (∀ z i l, Gen.plGenX (srcOps dimOk) vw [.coord (i, l)] false x1 yCoo (some z) c ye xe mode =
+      .ok ([[("x", ((vw.sel z i).flat ((vw.sel z i).freeDims x1) x1).filter Cell.isFinite)]], [])) ∧
+    (∀ n zCoo, Gen.plGenX (srcOps dimOk) vw [.name n] true x1 yCoo zCoo c ye xe mode =
+      .ok ([[("x", (vw.flat (vw.freeDims n) n).filter Cell.isFinite)]], [])) ∧
+    (∀ zCoo, Gen.plGenX (srcOps dimOk) vw [.none] false x1 yCoo zCoo c ye xe mode =
+      .ok ([[("x", (vw.flat (vw.freeDims x1) x1).filter Cell.isFinite)]], [])) := by
+  refine ⟨?_, ?_, ?_⟩ <;> intros <;>
+    (simp only [Gen.plGenX, Gen.Default.plGenX]
+     simp only [plLoop, plEnumerate, length_cons, length_nil, range_succ, range_zero, nil_append, zip_cons_cons, zip_nil_right,
+       foldlM_cons, foldlM_nil, srcOps, PZ.isNone, PZ.key, bind, Except.bind, pure, Except.pure, Bool.not_false, Bool.not_true,
+       if_true, Bool.false_eq_true, if_false, ↓reduceIte, nil_append, Arr.flat, Option.getD_none, applyMask_map_self])
+
+/-- **the whole generator on the model's dataset = the model's series** (z coordinate case): run over the values of the z
+coordinate, the translated `gen_xy` yields exactly the data of `xySeries` over `prepareZVals`, series by series -/
+theorem c17_src_xy_refines (dimOk : String → Bool) (vw : View) (call : Call) (z : String) (hz : call.z = some z)
+    (hk : call.kind = .lineplot ∨ call.kind = .scatter) (r : List (List (String × List Cell)) × List (Option Cell))
+    (h : Gen.plGenXY (srcOps dimOk) vw (((srcOps dimOk).coordValues vw z).map PZ.coord) false call.x1 call.y1 (some z) call.c
+      call.yErr call.xErr (modeOf call.kind) = .ok r) :
+    r.1 = (xySeries vw call (prepareZVals vw.ds call)).map seriesData := by
+  obtain ⟨hl, hser⟩ := c17_src_genxy_series_per_z _ _ _ _ _ _ _ _ _ _ _ _ h
+  have hlen : (((srcOps dimOk).coordValues vw z).map PZ.coord).length = (vw.ds.labels z).length := by simp [srcOps]
+  apply ext_getElem?
+  intro k
+  by_cases hk' : k < (vw.ds.labels z).length
+  · obtain ⟨d, cc, h1, h2⟩ := hser k (by omega)
+    have hzk : (((srcOps dimOk).coordValues vw z).map PZ.coord)[k]'(by omega) = .coord (k, (vw.ds.labels z)[k]) := by
+      simp [srcOps]
+    rw [hzk, genxy_coord_refines dimOk vw call z k _ hk] at h1
+    simp only [Except.ok.injEq, Prod.mk.injEq, cons.injEq, and_true] at h1
+    rw [h2, ← h1.1]
+    simp [xySeries, prepareZVals, hz, hk', sliceView, seriesData]
+  · rw [getElem?_eq_none (by omega), getElem?_eq_none (by simp [xySeries, prepareZVals, hz]; omega)]
+
+/-! ### Non-vacuity: the translated functions run on the example dataset of `Props/C17.lean` -/
+
+def exOps (ok : Bool) := srcOps fun _ => ok
+def exZs : List (PZ (Nat × String)) := ((exOps true).coordValues { ds := exDS } "z").map PZ.coord
+
+def ysOf (r : Except PErr (List (List (String × List Cell)) × List (Option Cell))) : List (List Cell) :=
+  match r with
+  | .ok r => r.1.map fun d => ((d.find? (·.1 == "y")).map (·.2)).getD []
+  | .error _ => [[.nan]]
+
+-- positional selection and the `.loc` fallback give the same three series, the second masked, the third empty
+example : ysOf (Gen.plGenXY (exOps true) { ds := exDS } exZs false "x" "y" (some "z") none none none "lineplot") =
+    [[.fin 0, .fin 1], [.fin 3], []] := by decide
+example : ysOf (Gen.plGenXY (exOps false) { ds := exDS } exZs false "x" "y" (some "z") none none none "lineplot") =
+    [[.fin 0, .fin 1], [.fin 3], []] := by decide
+-- y_err carried: NaN / inf error values at finite points stay
+example : (match Gen.plGenXY (exOps true) { ds := exDSErr } exZs false "x" "y" (some "z") none (some "ye") none "lineplot" with
+    | .ok r => r.1.map fun d => ((d.find? (·.1 == "ye")).map (·.2)).getD []
+    | .error _ => []) = [[.nan, .fin 11], [.inf false], []] := by decide
+-- several variables with an error variable: ValueError
+example : (match Gen.plGenXY (exOps true) { ds := exDS } [.name "y"] true "x" "y" none none (some "ye") none "lineplot" with
+    | .ok _ => false | .error e => e == .valueError) = true := by decide
+-- histogram: the finite values of each slice
+example : (match Gen.plGenX (exOps true) { ds := exDS } exZs false "y" "" (some "z") none none none "histogram" with
+    | .ok r => r.1.map fun d => d.map (·.2) | .error _ => []) = [[[.fin 0, .fin 1]], [[.fin 3]], [[]]] := by decide
+-- z values and labels of the translated preparation
+example : (match Gen.plZVals (exOps true) { ds := exDS } (some "z") (.one "y") (.one "x") false "lineplot" with
+    | .ok r => some (r.1, r.2.map zOf) | .error _ => none) = some (false, [.coord 0 "a", .coord 1 "b", .coord 2 "c"]) := by decide
+example : (match Gen.plZVals (exOps true) { ds := exDS } none (.many ["y", "x"]) (.one "x") false "lineplot" with
+    | .ok r => some (r.1, r.2.map zOf) | .error _ => none) = some (true, [.var "y", .var "x"]) := by decide
+example : (match Gen.plZLabels (exOps true) none (some "z") false exZs with
+    | .ok it => takeLabels 3 it | .error _ => none) = some [some "a", some "b", some "c"] := by decide
+example : (match Gen.plZLabels (exOps true) (some ["p", "q", "r"]) (some "z") false exZs with
+    | .ok it => takeLabels 3 it | .error _ => none) = some [some "p", some "q", some "r"] := by decide
 
 end PlotPrep
